@@ -5,6 +5,7 @@
 #include "rt.h"
 
 extern void rt_spawn(int idx);
+extern int rt_join(int idx, void** result);
 
 // "crowd n k": n further fibers, each yielding k times (anonymous: they count towards the number of ready fibers, the
 // fairness bound is still checked for the program fibers)
@@ -17,6 +18,12 @@ static int yield_do_op(int idx, op_t* op) {
   (void)idx;
   if (!strcmp(op->name, "spawn")) {
     rt_spawn(op->a);
+    return 1;
+  }
+  if (!strcmp(op->name, "join")) {
+    // wait for another program fiber (its first op is "target"): that fiber keeps yielding while somebody is blocked on it
+    void* res = 0;
+    if (rt_join(op->a, &res) != FIBER_SUCCESS) vs_violation("join_result", "fiber %d: join of fiber %d failed", idx, op->a);
     return 1;
   }
   if (!strcmp(op->name, "crowd")) {
@@ -41,7 +48,7 @@ GHOST static void yield_final(void) {
   // for each program fiber: thread it is queued on (-1 = not ready), bypass count
   int ready_on[MAX_FIBERS];
   long bypass[MAX_FIBERS];
-  long max_bypass = 0;
+  long max_bypass = 0, n_noswitch = 0;
   int max_ready = 0;
   for (int i = 0; i < MAX_FIBERS; i++) ready_on[i] = -1, bypass[i] = 0;
   for (int k = 0; k < n; k++) {
@@ -54,6 +61,16 @@ GHOST static void yield_final(void) {
         for (int i = 0; i < nf; i++) r += ready_on[i] >= 0;
         if (r > max_ready) max_ready = r;
       }
+    } else if (e->type == 2) {
+      // a yield that came back without switching: every fiber that was ready on that thread has been passed over once
+      for (int i = 0; i < nf; i++)
+        if (i != e->who && ready_on[i] == e->thread) {
+          bypass[i]++;
+          n_noswitch++;
+          if (bypass[i] > bound && g_case.threads == 1)
+            vs_violation("bypass_bound", "fiber %d was ready on kernel thread %d while %ld other fibers ran or yielded without giving way (bound %ld for %d fibers); last: fiber %d's "
+                         "fiber_yield returned without a switch", i, e->thread, bypass[i], bound, nf, e->who);
+        }
     } else {
       if (e->who == -2) continue;  // maintenance fiber: nothing was ready on that thread
       if (e->who >= 0) {
@@ -79,6 +96,7 @@ GHOST static void yield_final(void) {
       else if (!strcmp(g_case.ops[i][j].name, "crowd")) total_yields += (long)g_case.ops[i][j].a * g_case.ops[i][j].b;
   vs_label_max("max_bypass", (uint64_t)max_bypass);
   vs_label_max("max_ready", (uint64_t)max_ready);
+  vs_label_add("yield_without_switch_while_others_ready", (uint64_t)n_noswitch);
   vs_label_max("crowd", (uint64_t)crowd_total);
   if (max_ready >= 3 && total_yields >= 5 * bound) rt_nontrivial("yield");
   vs_rt_exit();
